@@ -86,6 +86,8 @@ class GCPBatchExecutor(Executor):
         self.is_running = False
         self.interval = config.getfloat("job_monitor_interval", fallback=5.0)
         self._thread: Optional[threading.Thread] = None
+        # Guards the decision to start a monitor thread against the monitor's decision to exit.
+        self._monitor_lock = threading.Lock()
         self.arrayer = JobArrayer(
             self._submit_jobs,
             self._on_error,
@@ -495,10 +497,11 @@ class GCPBatchExecutor(Executor):
         """
         Start monitoring thread.
         """
-        if not self._thread or not self._thread.is_alive():
-            self.is_running = True
-            self._thread = threading.Thread(target=self._monitor, daemon=False)
-            self._thread.start()
+        with self._monitor_lock:
+            if not self.is_running or not self._thread or not self._thread.is_alive():
+                self.is_running = True
+                self._thread = threading.Thread(target=self._monitor, daemon=False)
+                self._thread.start()
 
     def stop(self) -> None:
         """
@@ -527,7 +530,17 @@ class GCPBatchExecutor(Executor):
         gcp_batch_client = gcp_utils.get_gcp_batch_client()
 
         try:
-            while self.is_running and (self.pending_batch_tasks or self.arrayer.num_pending):
+            while True:
+                # Decide to exit under the lock: a job submitted from now on will find the
+                # monitor not running and start a new one, instead of being left behind.
+                with self._monitor_lock:
+                    if not (
+                        self.is_running
+                        and (self.pending_batch_tasks or self.arrayer.num_pending)
+                    ):
+                        self.is_running = False
+                        break
+
                 if self._scheduler.logger.level >= logging.DEBUG:
                     self.log(
                         f"Preparing {self.arrayer.num_pending} job(s) for Job Arrays.",
@@ -556,9 +569,11 @@ class GCPBatchExecutor(Executor):
             # need to catch all exceptions so we can properly report them to
             # the scheduler.
             self._scheduler.reject_job(None, error)
+            self.is_running = False
 
+        # Note: the arrayer and the debug executor are stopped by stop(), not here: a job
+        # submitted concurrently may already rely on them.
         self.log("Shutting down executor...", level=logging.DEBUG)
-        self.stop()
 
     def _process_task_status(self, task: Task) -> None:
         assert self._scheduler
